@@ -461,3 +461,223 @@ Proof.
   - rewrite stops_bsl in S. discriminate.
   - destruct (actual_outputs_escapable _ _ _ Hl Hin) as [k' ->]. reflexivity.
 Qed.
+
+(* ================================================================== VM fragment *)
+Section VMProofs.
+Variable V E : Type.
+Variable tostr : V -> list N.
+Variable vstr : list N -> V.
+Variable cap : nat.
+Hypothesis tostr_vstr : forall s, tostr (vstr s) = s.
+
+Notation exec := (exec V E tostr vstr cap).
+Notation step := (step V E tostr vstr cap).
+Notation framed := (framed V E tostr vstr cap).
+Notation vmst := (vmst V E).
+Notation lift := (lift V E).
+Notation hsem := (hsem V E).
+
+Lemma exec_app : forall a b (s : vmst),
+  exec (a ++ b) s = match exec a s with Done s' => exec b s' | Err e => Err e | Panic => Panic | Stale => Stale end.
+Proof.
+  induction a as [|i a IH]; intros b s; [reflexivity|].
+  simpl. destruct (step i s); try reflexivity. apply IH.
+Qed.
+
+Lemma framed_ext : forall c (s1 s2 : hsem),
+  (forall d e, s1 d e = s2 d e) -> framed c s1 -> framed c s2.
+Proof. intros c s1 s2 H F e base fbs. rewrite <- H. apply F. Qed.
+
+Lemma framed_nil : framed [] (sem_nil V E).
+Proof. intros e base fbs. left. reflexivity. Qed.
+
+Lemma framed_push : forall x, framed [IPushStr x] (sem_push V E vstr x).
+Proof.
+  intros x e base fbs. unfold upto_overflow. cbn [StrLit.exec]; unfold StrLit.step; cbn [stk env fb].
+  destruct (Nat.eqb (length base) cap); [right; reflexivity|left; reflexivity].
+Qed.
+
+Lemma framed_prim : forall f, prim_ok V E f -> framed [IPrim f] (sem_prim V E f).
+Proof.
+  intros f Hf e base fbs. unfold upto_overflow, sem_prim. cbn [StrLit.exec]; unfold StrLit.step; cbn [stk env fb].
+  destruct (Nat.eqb (length base) cap); [right; reflexivity|].
+  specialize (Hf e base). destruct (f e []) as [[e' extra]| | |]; destruct Hf as [-> | ->]; auto.
+Qed.
+
+Lemma framed_seq : forall c1 c2 (s1 s2 : hsem),
+  framed c1 s1 -> framed c2 s2 -> framed (c1 ++ c2) (sem_seq V E s1 s2).
+Proof.
+  intros c1 c2 s1 s2 F1 F2 e base fbs. rewrite exec_app. unfold sem_seq.
+  destruct (F1 e base fbs) as [-> | ->]; [|right; reflexivity].
+  destruct (s1 (length fbs) e) as [[e1 x1]| | |]; cbn [StrLit.lift]; try (left; reflexivity).
+  destruct (F2 e1 (x1 ++ base) fbs) as [-> | ->]; [|right; reflexivity].
+  destruct (s2 (length fbs) e1) as [[e2 x2]| | |]; cbn [StrLit.lift]; try (left; reflexivity).
+  left. rewrite app_assoc. reflexivity.
+Qed.
+
+Lemma bottom_app : forall (ex base : list V), bottom V (length base) (ex ++ base) = base.
+Proof.
+  intros ex base. unfold bottom. rewrite app_length.
+  replace (length ex + length base - length base)%nat with (length ex) by lia.
+  rewrite skipn_app, skipn_all, Nat.sub_diag. reflexivity.
+Qed.
+
+Lemma fspop_exact : forall e' (extra base : list V) fbs,
+  length (extra ++ base) <> cap ->
+  exec [IFsPop] {| env := e'; stk := extra ++ base; fb := length base :: fbs |} =
+    Done {| env := e'; stk := hole_val V vstr extra :: base; fb := fbs |}.
+Proof.
+  intros e' extra base fbs Hc2.
+  cbn [StrLit.exec]; unfold StrLit.step; cbn [stk env fb].
+  apply Nat.eqb_neq in Hc2. rewrite Hc2.
+  destruct extra as [|v ex].
+  - cbn [app]. rewrite Nat.eqb_refl. reflexivity.
+  - cbn [app]. assert (Hne : Nat.eqb (length base) (length (v :: ex ++ base)) = false).
+    { apply Nat.eqb_neq. simpl. rewrite app_length. lia. }
+    rewrite Hne. assert (Hle : Nat.leb (length base) (length (ex ++ base)) = true).
+    { apply Nat.leb_le. rewrite app_length. lia. }
+    rewrite Hle, bottom_app. reflexivity.
+Qed.
+
+(* hole_pushes_one, direct form: WHATEVER the code between fstr.block.push and
+   fstr.block.pop left above the saved height, exactly one value remains there: the top
+   one, or "" when nothing was left *)
+Lemma hole_pushes_one_direct : forall c e base fbs e' extra,
+  (length fbs < FSTR_DEPTH)%nat -> length base <> cap -> length (extra ++ base) <> cap ->
+  exec c {| env := e; stk := base; fb := length base :: fbs |} =
+    Done {| env := e'; stk := extra ++ base; fb := length base :: fbs |} ->
+  exec (IFsPush :: c ++ [IFsPop]) {| env := e; stk := base; fb := fbs |} =
+    Done {| env := e'; stk := hole_val V vstr extra :: base; fb := fbs |}.
+Proof.
+  intros c e base fbs e' extra Hd Hc1 Hc2 Hc.
+  cbn [StrLit.exec]. unfold StrLit.step at 1. cbn [stk env fb].
+  apply Nat.eqb_neq in Hc1. rewrite Hc1.
+  assert (Hl : Nat.leb FSTR_DEPTH (length fbs) = false) by (apply Nat.leb_gt; exact Hd). rewrite Hl.
+  rewrite exec_app, Hc. apply fspop_exact. exact Hc2.
+Qed.
+
+(* the same inside the frame calculus: at any number of open holes, on top of any stack;
+   one hole too many is the error ENesting, not a panic *)
+Lemma framed_hole : forall c (s : hsem),
+  framed c s -> framed (IFsPush :: c ++ [IFsPop]) (sem_hole V E vstr s).
+Proof.
+  intros c s F e base fbs. unfold sem_hole.
+  cbn [StrLit.exec]. unfold StrLit.step at 1. cbn [stk env fb].
+  destruct (Nat.eqb (length base) cap) eqn:Hc1; [right; reflexivity|].
+  destruct (Nat.leb FSTR_DEPTH (length fbs)) eqn:Hl; [left; reflexivity|].
+  rewrite exec_app.
+  destruct (F e base (length base :: fbs)) as [-> | ->]; [|right; reflexivity].
+  cbn [length]. destruct (s (S (length fbs)) e) as [[e' extra]| | |]; cbn [StrLit.lift]; try (left; reflexivity).
+  destruct (Nat.eqb (length (extra ++ base)) cap) eqn:Hc2.
+  - right. cbn [StrLit.exec]; unfold StrLit.step; cbn [stk env fb]. rewrite Hc2. reflexivity.
+  - left. apply Nat.eqb_neq in Hc2. apply fspop_exact. exact Hc2.
+Qed.
+
+Lemma framed_ldfs : forall c (s : hsem) n,
+  framed c s -> (forall d e e' vals, s d e = Done (e', vals) -> length vals = n) ->
+  framed (c ++ [ILdFs n]) (sem_ldfs V E tostr vstr s).
+Proof.
+  intros c s n F Hn e base fbs. rewrite exec_app. unfold sem_ldfs.
+  destruct (F e base fbs) as [-> | ->]; [|right; reflexivity].
+  destruct (s (length fbs) e) as [[e' vals]| | |] eqn:Es; cbn [StrLit.lift]; try (left; reflexivity).
+  pose proof (Hn _ _ _ _ Es) as Hlen.
+  cbn [StrLit.exec]; unfold StrLit.step; cbn [stk env fb].
+  destruct (Nat.eqb (length (vals ++ base)) cap); [right; reflexivity|left].
+  assert (Hlt : Nat.ltb (length (vals ++ base)) n = false).
+  { apply Nat.ltb_ge. rewrite app_length. lia. }
+  rewrite Hlt. subst n. rewrite firstn_app, firstn_all, Nat.sub_diag, firstn_O, app_nil_r.
+  rewrite skipn_app, skipn_all, Nat.sub_diag. reflexivity.
+Qed.
+
+(* ---- templates *)
+Definition part_sem (p : tpart V E) : hsem :=
+  match p with TLit s => sem_push V E vstr s | THole _ sem => sem_hole V E vstr sem end.
+
+Fixpoint parts_sem (ps : list (tpart V E)) : hsem :=
+  match ps with
+  | [] => sem_nil V E
+  | p :: r => sem_seq V E (part_sem p) (parts_sem r)
+  end.
+
+Lemma framed_cpart : forall p, part_ok V E tostr vstr cap p -> framed (cpart V E p) (part_sem p).
+Proof.
+  intros [s|c sem] H; simpl.
+  - apply framed_push.
+  - apply framed_hole. exact H.
+Qed.
+
+Lemma framed_parts : forall ps, Forall (part_ok V E tostr vstr cap) ps ->
+  framed (compile_parts V E ps) (parts_sem ps).
+Proof.
+  induction ps as [|p r IH]; intros H.
+  - apply framed_nil.
+  - inversion H; subst. unfold compile_parts. cbn [flat_map parts_sem].
+    apply framed_seq; [apply framed_cpart; assumption|apply IH; assumption].
+Qed.
+
+Lemma part_sem_one : forall p d e e' vals, part_sem p d e = Done (e', vals) -> length vals = 1%nat.
+Proof.
+  intros [s|c sem] d e e' vals H; simpl in H.
+  - unfold sem_push in H. inversion H. reflexivity.
+  - unfold sem_hole in H. destruct (Nat.leb FSTR_DEPTH d); [discriminate|].
+    destruct (sem (S d) e) as [[e1 ex]| | |]; inversion H. reflexivity.
+Qed.
+
+Lemma parts_sem_count : forall ps d e e' vals,
+  parts_sem ps d e = Done (e', vals) -> length vals = length ps.
+Proof.
+  induction ps as [|p r IH]; intros d e e' vals H.
+  - inversion H. reflexivity.
+  - cbn [parts_sem] in H. unfold sem_seq in H.
+    destruct (part_sem p d e) as [[e1 x1]| | |] eqn:E1; try discriminate.
+    destruct (parts_sem r d e1) as [[e2 x2]| | |] eqn:E2; try discriminate.
+    inversion H; subst. rewrite app_length, (IH _ _ _ _ E2), (part_sem_one _ _ _ _ _ E1). simpl. lia.
+Qed.
+
+Lemma parts_sem_text : forall ps d e,
+  tmpl_text V E tostr vstr ps d e =
+  match parts_sem ps d e with
+  | Done (e', vals) => Done (e', concat (map tostr (rev vals)))
+  | Err x => Err x | Panic => Panic | Stale => Stale
+  end.
+Proof.
+  induction ps as [|p r IH]; intros d e; [reflexivity|].
+  cbn [parts_sem tmpl_text]. unfold sem_seq. destruct p as [s|c sem]; cbn [part_sem].
+  - unfold sem_push. rewrite IH. destruct (parts_sem r d e) as [[e2 x2]| | |]; try reflexivity.
+    rewrite rev_app_distr. simpl. rewrite tostr_vstr. reflexivity.
+  - destruct (sem_hole V E vstr sem d e) as [[e1 vs]| | |] eqn:Eh; try reflexivity.
+    rewrite IH. destruct (parts_sem r d e1) as [[e2 x2]| | |]; try reflexivity.
+    unfold sem_hole in Eh. destruct (Nat.leb FSTR_DEPTH d); [discriminate|].
+    destruct (sem (S d) e) as [[e1' ex]| | |]; inversion Eh; subst.
+    rewrite rev_app_distr. simpl. reflexivity.
+Qed.
+
+(* template_concat: the compiled template, run on top of any stack inside any number of
+   open holes, leaves exactly one value: the concatenation, in order, of the literal
+   segments and the string forms of the holes' values, with the variables as the holes
+   left them (or reports the hole's error / the nesting error / a full stack) *)
+Theorem template_concat : forall ps, Forall (part_ok V E tostr vstr cap) ps ->
+  framed (compile V E ps) (tmpl_sem V E tostr vstr ps).
+Proof.
+  intros ps H. unfold compile.
+  apply framed_ext with (s1 := sem_ldfs V E tostr vstr (parts_sem ps)).
+  - intros d e. unfold sem_ldfs, tmpl_sem. rewrite parts_sem_text.
+    destruct (parts_sem ps d e) as [[e' vals]| | |]; reflexivity.
+  - apply framed_ldfs; [apply framed_parts; exact H|].
+    intros d e e' vals Hs. exact (parts_sem_count _ _ _ _ _ Hs).
+Qed.
+
+(* a template is itself well-behaved hole code: nesting to any depth *)
+Corollary template_is_part : forall ps, Forall (part_ok V E tostr vstr cap) ps ->
+  part_ok V E tostr vstr cap (THole (compile V E ps) (tmpl_sem V E tostr vstr ps)).
+Proof. intros ps H. exact (template_concat ps H). Qed.
+
+(* the 21st open hole is an error, never a panic *)
+Lemma nesting_limit_is_error : forall (s : vmst),
+  (FSTR_DEPTH <= length (fb s))%nat ->
+  step IFsPush s = Err ENesting \/ step IFsPush s = Err EOverflow.
+Proof.
+  intros s H. unfold StrLit.step. destruct (Nat.eqb (length (stk s)) cap); [right; reflexivity|left].
+  apply Nat.leb_le in H. rewrite H. reflexivity.
+Qed.
+End VMProofs.
